@@ -146,3 +146,16 @@ macro_rules! api_impl {
 api_impl!(cur, preflate_rs);
 api_impl!(ref0, preflate_ref0);
 api_impl!(ref1, preflate_ref1);
+
+/// `roundtrip_with_params` of the tree under test with the failing half made visible: the Err text is prefixed
+/// with "decode:" when corrections WERE produced and the reconstruction from them failed
+pub fn cur_roundtrip_phased(
+    d: &[u8],
+    v: &preflate_rs::verif::ParamVec,
+) -> Out<(Vec<u8>, usize, usize, preflate_rs::verif::ParamVec)> {
+    match guard(|| preflate_rs::verif::roundtrip_with_params_phased(d, v)) {
+        Guarded::Done(Ok(x)) => Out::Ok(x),
+        Guarded::Done(Err((decode, e))) => Out::Err(format!("{}{:?}", if decode { "decode:" } else { "" }, e.exit_code())),
+        Guarded::Panicked(s) => Out::Panic(s),
+    }
+}
